@@ -790,6 +790,26 @@ func (st *State) Assume(op string, x, y *IntV) bool {
 			}
 		}
 	}
+	// an excluded value that sits at an end of a symbol's interval shortens the interval (s != 0 with s in [-5,0] gives
+	// [-5,-1]); repeated because a shortened interval can meet the next excluded value
+	for changed, rounds := true, 0; changed && rounds < 8; rounds++ {
+		changed = false
+		for _, n := range st.neq {
+			if len(n.Syms) != 1 || (n.Coefs[0] != 1 && n.Coefs[0] != -1) {
+				continue
+			}
+			sy := n.Syms[0]
+			v := -n.C * n.Coefs[0] // coef*s + c != 0  <=>  s != -c/coef
+			l, h := st.SymRange(sy)
+			if l == v && l < h {
+				st.refineSym(sy, l+1, h)
+				changed = true
+			} else if h == v && l < h {
+				st.refineSym(sy, l, h-1)
+				changed = true
+			}
+		}
+	}
 	// contradiction check
 	for s := range st.rng {
 		l, h := st.SymRange(s)
